@@ -7,8 +7,8 @@
     - for every live connection [c] (Outgoing [o], link [o_link o]) and every non-shared request
       [rq] it holds, if the key (link, filter, log) of the request has events at all, the offset
       of the request's cursor is EXACTLY where the last event of that key continues ([nxt]), and
-      if that cursor is stale its offset lies at or before the log's base ([CurAt]) — unless that
-      last event is the resume marker [KRes], after which nothing is known until the first sweep;
+      if that cursor is stale its offset lies at or before the log's base ([CurAt]; the latter is
+      not known after a resume marker [KRes], until the first sweep);
       the key of such a request always has events, the first one [KSub] or [KRes].
     The cursor therefore only moves by sweeps.  Uniqueness of the request per (connection,
     filter) is not part of [DI]: it comes from request location ([DevE], ExactLoc*.v). *)
@@ -24,8 +24,8 @@ From Coq Require Import List ZifyBool ZifyN ZifyNat.
 Import ListNotations.
 
 Definition CurAt (dl : datalog) (rq : drequest) (a : kev) : Prop :=
-  a = KRes \/
-  (snd (dr_cursor rq) = nxt a /\
+  snd (dr_cursor rq) = nxt a /\
+  (is_res a = false ->
    forall d, nget dl (dr_idx rq) = Some d -> stale (d_log d) (dr_cursor rq) = true ->
              snd (dr_cursor rq) <= base_of (d_log d)).
 
@@ -44,14 +44,14 @@ Record DI (st : rstate) (e : list (N * drequest)) (tr : list dev) : Prop := {
      SUBSCRIBE marker, or with the resume marker of the connection *)
   di_ne : forall c o rq, slab_get (r_obufs st) c = Some o -> HeldE st e c rq -> dr_group rq = None ->
           ktrace (key_of o rq) tr <> [];
-  di_head : forall K a l, ktrace K tr = a :: l -> a = KRes \/ exists e0, a = KSub e0
+  di_head : forall K a l, ktrace K tr = a :: l -> is_res a = true \/ exists e0, a = KSub e0
 }.
 
 (* ------------------------------------------------------------------ monotonicity in the logs *)
 Lemma curat_mono dl dl' rq a :
   LogsInv dl -> dl_le dl dl' -> CurOk dl (dr_idx rq) (dr_cursor rq) -> CurAt dl rq a -> CurAt dl' rq a.
 Proof.
-  intros LI [Hle _] (d & Hd & Hiss & _) [Hres | [H1 H2]]; [now left|]. right. split; [exact H1|].
+  intros LI [Hle _] (d & Hd & Hiss & _) [H1 H2]. split; [exact H1|]. intros Hnr. specialize (H2 Hnr).
   intros d' Hd' Hst. destruct (Hle _ _ Hd) as (d2 & Hd2 & _ & L). rewrite Hd' in Hd2. inversion Hd2; subst d2.
   destruct (li_wf _ LI _ _ Hd) as [all W]. destruct (L all W) as (xs & _ & _ & Hb & Hs).
   destruct (stale (d_log d) (dr_cursor rq)) eqn:E.
@@ -149,8 +149,8 @@ Proof.
 Qed.
 
 (* ------------------------------------------------------------------ a new event at the end of a key *)
-Lemma ktrace_snoc_same K id a tr : ktrace K (tr ++ [(id, K, a)]) = ktrace K tr ++ [a].
-Proof. now rewrite ktrace_app, ktrace_cons_same, ktrace_nil. Qed.
+Lemma ktrace_snoc_same K id a tr : is_end a = false -> ktrace K (tr ++ [(id, K, a)]) = ktrace K tr ++ [a].
+Proof. intros H. now rewrite ktrace_app, ktrace_cons_same, ktrace_nil. Qed.
 Lemma ktrace_snoc_other K K' id a tr : K <> K' -> ktrace K (tr ++ [(id, K', a)]) = ktrace K tr.
 Proof. intros H. rewrite ktrace_app, ktrace_cons_other, ktrace_nil by exact H. apply app_nil_r. Qed.
 
@@ -220,20 +220,19 @@ Proof.
     - intros id0 k f i a Hin. apply in_app_or in Hin as [Hin | [E | []]]; [eapply D2; eassumption|].
       inversion E; subst. exists d. split; [exact Hd|]. cbn [nxt]. lia.
     - intros K'. destruct (dkey_dec K' K) as [-> | Hne].
-      + rewrite ktrace_snoc_same. apply kchain_snoc. split; [apply D3|]. intros a Ha.
-        assert (Hge : nxt a <= snd cu); [|destruct a; cbn [ok_next nxt] in *; first [exact Hge | exact I]].
+      + rewrite ktrace_snoc_same by reflexivity. apply kchain_snoc. split; [apply D3|]. intros a Ha. cbn [ok_next].
         assert (Hin : In a (ktrace K tr)).
         { clear -Ha. induction (ktrace K tr) as [|x l IH]; [discriminate|]. destruct l; [inversion Ha; now left|].
           right. apply IH. exact Ha. }
-        apply ktrace_In in Hin as (id0 & Hin). destruct (D2 _ _ _ _ _ Hin) as (d0 & Hd0 & He).
+        apply ktrace_In in Hin as (_ & id0 & Hin). destruct (D2 _ _ _ _ _ Hin) as (d0 & Hd0 & He).
         change (r_datalog st3) with (r_datalog st) in Hd0. rewrite Hd in Hd0. inversion Hd0; subst d0. lia.
       + rewrite ktrace_snoc_other by exact Hne. apply D3.
     - intros c o' r a Ho' Hh Hg Hl. change (r_obufs st3) with (r_obufs st) in Ho'.
       destruct (dkey_dec (key_of o' r) K) as [Ek | Hne].
       + destruct Hh as [Hh | [E | []]].
         * exfalso. eapply Hnew; eassumption.
-        * inversion E; subst c r. rewrite Ek, ktrace_snoc_same, last_opt_snoc in Hl. inversion Hl; subst a.
-          right. split; [reflexivity|]. cbn [rq dr_idx dr_cursor]. intros d0 Hd0 Hs0.
+        * inversion E; subst c r. rewrite Ek, ktrace_snoc_same, last_opt_snoc in Hl by reflexivity. inversion Hl; subst a.
+          split; [reflexivity|]. intros _. cbn [rq dr_idx dr_cursor]. intros d0 Hd0 Hs0.
           change (r_datalog st3) with (r_datalog st) in Hd0. rewrite Hd in Hd0. inversion Hd0; subst d0. congruence.
       + rewrite ktrace_snoc_other in Hl by exact Hne.
         destruct Hh as [Hh | [E | []]]; [eapply D4; eauto; now left|].
@@ -244,9 +243,9 @@ Proof.
     - intros c o' r Ho' Hh Hg. change (r_obufs st3) with (r_obufs st) in Ho'.
       destruct Hh as [Hh | [E | []]]; [apply ktrace_app_ne; eapply D6; eauto; now left|].
       inversion E; subst c r. rewrite Ho in Ho'. inversion Ho'; subst o'.
-      change (key_of o rq) with K. rewrite ktrace_snoc_same. intros X. apply app_eq_nil in X as [_ X]. discriminate.
+      change (key_of o rq) with K. rewrite ktrace_snoc_same by reflexivity. intros X. apply app_eq_nil in X as [_ X]. discriminate.
     - intros K' a l E. destruct (dkey_dec K' K) as [-> | Hne].
-      + rewrite ktrace_snoc_same in E. destruct (ktrace K tr) as [|x t] eqn:Ek.
+      + rewrite ktrace_snoc_same in E by reflexivity. destruct (ktrace K tr) as [|x t] eqn:Ek.
         * cbn [app] in E. inversion E; subst. right. eauto.
         * cbn [app] in E. inversion E; subst. eapply D7; exact Ek.
       + rewrite ktrace_snoc_other in E by exact Hne. eapply D7; exact E. }
@@ -258,4 +257,27 @@ Proof.
   - rewrite (keep_obufs _ _ K5), (keep_obufs _ _ K4). reflexivity.
   - rewrite (reschedule_dl _ _ _ _ H5), (track_dl _ _ _ _ H4). reflexivity.
   - rewrite (keep_links _ _ K5), (keep_links _ _ K4). reflexivity.
+Qed.
+
+(* ------------------------------------------------------------------ end markers do not enter the chains *)
+Lemma di_add_ends st e tr evs :
+  forallb (fun ev : dev => is_end (snd ev)) evs = true ->
+  (forall id k f i a, In (id, (k, f, i), a) evs ->
+     k < lenN (r_links st) /\
+     (exists d, nget (r_datalog st) i = Some d /\ nxt a <= end_of (d_log d)) /\
+     (forall c o, slab_get (r_obufs st) c = Some o -> o_link o = k -> id = c)) ->
+  DI st e tr -> DI st e (tr ++ evs).
+Proof.
+  intros He Hev [D1 D2 D3 D4 D5 D6 D7].
+  assert (Hk : forall K, ktrace K (tr ++ evs) = ktrace K tr).
+  { intros K. rewrite ktrace_app, (ktrace_all_end K evs He). apply app_nil_r. }
+  constructor.
+  - intros id k f i a Hin. apply in_app_or in Hin as [Hin | Hin]; [eapply D1; eassumption|]. apply (Hev _ _ _ _ _ Hin).
+  - intros id k f i a Hin. apply in_app_or in Hin as [Hin | Hin]; [eapply D2; eassumption|]. apply (Hev _ _ _ _ _ Hin).
+  - intros K. rewrite Hk. apply D3.
+  - intros c o rq a Ho Hh Hg Hl. rewrite Hk in Hl. eapply D4; eassumption.
+  - intros id k f i a c o Hin Ho Hl. apply in_app_or in Hin as [Hin | Hin]; [eapply D5; eassumption|].
+    destruct (Hev _ _ _ _ _ Hin) as (_ & _ & X). eapply X; eassumption.
+  - intros c o rq Ho Hh Hg. rewrite Hk. eapply D6; eassumption.
+  - intros K a l E. rewrite Hk in E. eapply D7; eassumption.
 Qed.
